@@ -296,6 +296,15 @@ def decorate(u: SerdeUniverse, k: int) -> ir.Model:
         if v.type is not None and (vi + k) % 4 == 0:
             dt = v.type.dtype
             v.type = ir.OptionalType(ir.SequenceType(ir.TensorType(dt))) if (vi + k) % 8 == 0 else ir.SequenceType(ir.TensorType(dt), denotation="SEQ")
+    # denotations of tensor types and of dimensions (leaf payloads: equality of types / shapes ignores them)
+    for vi, v in enumerate(u.values):
+        if isinstance(v.type, ir.TensorType) and (vi + k) % 3 == 1:
+            v.type = ir.TensorType(v.type.dtype, denotation="TENSOR")
+        if v.shape is not None and len(v.shape) > 0 and (vi + k) % 3 != 0:
+            try:
+                v.shape.set_denotation(len(v.shape) - 1, "DATA_FEATURE")
+            except Exception:  # noqa: BLE001 - a frozen shape: leave it
+                pass
     _decorate_devices(model, (k // 6) % 8)
     return model
 
